@@ -30,6 +30,9 @@
 //! [^futurelet]: `\futurelet` is an example of an execution command that does this.
 //!
 
+#[cfg(texcraft_verif)]
+use crate::verif_std as std;
+
 use crate::prelude as txl;
 use crate::texmacro;
 use crate::token;
